@@ -93,9 +93,22 @@ Definition C06_ok (c : rtcase) : bool :=
         dropped (drain phase of the harness) the command reports done ---- *)
 Definition C07_done_sound (t : list obs) : bool :=
   forallb (fun o => match o with ODone true (S _) => false | _ => true end) t.
+(* once a command has reported done nothing more can come out of it, unless a new task is spawned on it *)
+Fixpoint C07_done_final (acts : list action) (t : list obs) (done : bool) : bool :=
+  match acts, t with
+  | a :: acts', o :: t' =>
+    let done' := match a with ASpawn _ => false | _ => done end in
+    match o with
+    | OEffects l => (negb done' || match l with [] => true | _ => false end) && C07_done_final acts' t' done'
+    | OEvents l => (negb done' || match l with [] => true | _ => false end) && C07_done_final acts' t' done'
+    | ODone b _ => (negb done' || b) && C07_done_final acts' t' (done' || b)
+    | _ => C07_done_final acts' t' done'
+    end
+  | _, _ => true
+  end.
 Definition C07_ok (c : rtcase) : bool :=
-  match c with (core, drained, _, _, _, t) =>
-    no_panic t && (core || (C07_done_sound t &&
+  match c with (core, drained, _, _, acts, t) =>
+    no_panic t && (core || (C07_done_sound t && C07_done_final acts t false &&
       (negb drained || match last t ONone with ODone true 0 => true | _ => false end)))
   end.
 
